@@ -278,3 +278,45 @@ def facts(loc: Loc, node: ast.AST, keep: Iterable[str] = ()) -> set[str]:
     for t, p in flat_guards(loc.fi.node, node):
         split(loc.expanded(t, keep=keep), p)
     return out
+
+
+def value_cases(loc: Loc, node: ast.AST, value: ast.AST | None, keep: Iterable[str] = (), depth: int = 6) -> list[tuple[set[str], ast.AST]]:
+    """The values `value` (an expression of the statement `node`) can take, each with the canonical facts it is taken
+    under: the guards of the statement, plus the tests of the conditional expressions it is written with once the locals
+    are inlined.  `x = None if flag else y` and `if flag: x = None / else: x = y` give the same two cases."""
+    out: list[tuple[set[str], ast.AST]] = []
+    if value is None:
+        return out
+    base = facts(loc, node, keep=keep)
+
+    def add_test(fs: set[str], t: ast.AST, pol: bool) -> set[str]:
+        res = set(fs)
+
+        def split(t: ast.AST, pol: bool) -> None:
+            while isinstance(t, ast.UnaryOp) and isinstance(t.op, ast.Not):
+                t, pol = t.operand, not pol
+            if isinstance(t, ast.BoolOp) and ((isinstance(t.op, ast.And) and pol) or (isinstance(t.op, ast.Or) and not pol)):
+                for v in t.values:
+                    split(v, pol)
+                return
+            res.add(canon_fact(loc, t, pol, keep=['*']))
+
+        split(t, pol)
+        return res
+
+    def go(e: ast.AST, fs: set[str], d: int) -> None:
+        if isinstance(e, ast.Call) and isinstance(e.func, ast.IfExp) and d > 0:
+            f = e.func
+            for br, pol in ((f.body, True), (f.orelse, False)):
+                c = copy.copy(e)
+                c.func = br
+                go(c, add_test(fs, f.test, pol), d - 1)
+            return
+        if isinstance(e, ast.IfExp) and d > 0:
+            go(e.body, add_test(fs, e.test, True), d - 1)
+            go(e.orelse, add_test(fs, e.test, False), d - 1)
+            return
+        out.append((fs, e))
+
+    go(loc.expanded(value, depth=depth, keep=keep), base, 4)
+    return out
